@@ -63,12 +63,12 @@ theorem mkdirRoot_denied (r : Name) (p : Int) : mkdirRoot f env r p = M.fail .pe
 
 end
 
-/-- same tape, same table, same drive state as `w0` -/
-def SameAs (w0 w : World) : Prop := w.tape = w0.tape ∧ w.idx.rows = w0.idx.rows ∧ w.stuck = w0.stuck
+/-- same tape and same table as `w0` -/
+def SameAs (w0 w : World) : Prop := w.tape = w0.tape ∧ w.idx.rows = w0.idx.rows
 
 theorem sameAs_stable (w0 : World) : RowStable (SameAs w0) := by
   intro w p hp h
-  exact ⟨h.1, by simp only; rw [hp]; exact h.2.1, h.2.2⟩
+  exact ⟨h.1, by simp only; rw [hp]; exact h.2⟩
 
 /-- values returned by a program satisfy `Q` -/
 def Post {α : Type} (Q : α → Prop) (m : M α) : Prop := ∀ w w' a, m w = (w', .ok a) → Q a
